@@ -365,3 +365,24 @@ Proof.
   intros R H1 H2. destruct (tri_hyps_range V w al d t R H1 H2) as [A [B C]].
   exact (proj1 (jt_styled_bounding_box_tr d t w al A B C)).
 Qed.
+
+Lemma tri_segs_range_some V w so t : range_ok V w -> tri_within V t ->
+  exists segs, tri_segs (jt_sorted_clockwise t) w so = Some segs.
+Proof.
+  intros R H. pose proof (jt_sorted_clockwise_within V t H) as HC.
+  destruct (jt_sorted_clockwise t) as [[a b] c]. destruct HC as [Ha [Hb Hc]]. cbn [fst snd] in Ha, Hb, Hc.
+  cbn [tri_segs]. rewrite closed_iter_3.
+  destruct (lj_from_points_big V w so c a b R Hc Ha Hb) as [[j0 [-> _]] _].
+  destruct (lj_from_points_big V w so a b c R Ha Hb Hc) as [[j1 [-> _]] _].
+  destruct (lj_from_points_big V w so b c a R Hb Hc Ha) as [[j2 [-> _]] _]. eexists; reflexivity.
+Qed.
+
+(* the styled bounding box of a thick polyline moves with the vertices (input-only form) *)
+Lemma poly_thick_bounding_box_tr_range V w d a b r : range_ok V w ->
+  Forall (within V) (a :: b :: r) -> Forall (within V) (map (tr_pt d) (a :: b :: r)) ->
+  poly_thick_bounding_box (map (tr_pt d) (a :: b :: r)) w =
+  option_map (fun bb => translate_rect bb d) (poly_thick_bounding_box (a :: b :: r) w).
+Proof.
+  intros R F1 F2. apply poly_thick_bounding_box_tr;
+    [exact (poly_nosat_range V w d _ R F1 F2) | exact (poly_box_ok_range V w _ R F1) | exact (poly_box_ok_range V w _ R F2)].
+Qed.
